@@ -152,24 +152,28 @@ theorem cloneVal_idem (v : Val N) : cloneVal (cloneVal v) = cloneVal v :=
 
 /-! ### regenerated facts -/
 
-/-- every reflect / sort / rand / big mutator call site, keyed by (file, receiver type of the
-    enclosing method, receiver kind + method) — `local` = a value made in the calling function —
-    with the reason its receiver is not the caller's data -/
+/-- A mutator call (reflect `Set*`, an in-place `sort`, `big` setters, `rand`) cannot reach the caller's data
+    when what it writes to is `local` — a value made in the calling function (make, new, MakeSlice, a call
+    result) — wherever in the sources the call stands; `rand.*` only advances the generator.  Such sites are
+    accepted by their kind, so that adding or moving one (as the repair F35 did with `sort.Slice` over the fresh
+    list of member names) raises no alarm. -/
+def localOnly (what : String) : Bool :=
+  "local.".toList.isPrefixOf what.toList || "rand.".toList.isPrefixOf what.toList ||
+  ["sort.Slice(local)", "sort.SliceStable(local)", "sort.Sort(local)", "sort.Stable(local)",
+   "sort.Strings(local)", "sort.Ints(local)", "sort.Float64s(local)"].contains what
+
+/-- the mutator call sites whose target is not local to the calling function, keyed by (file, receiver type of
+    the enclosing method, receiver kind + method), with the reason the target is not the caller's data -/
 def allowedMutators : List (String × String × String) := [
-  ("eval.go", "", "local.Set"),                      -- element of a slice made by MakeSlice in this call
   ("eval.go", "", "alias:param:reflect.Value.Set"),  -- evalPath/evalObject: the variable is reassigned to a MakeSlice before the write
-  ("eval.go", "", "sort.SliceStable"),               -- sorts the fresh sortinfo slice
-  ("callable.go", "", "local.Set"),                  -- opt = reflect.New in this call
-  ("callable.go", "transformationCallable", "param:reflect.Value.SetMapIndex"),  -- the object belongs to the clone (ownership check)
-  ("jlib/array.go", "", "sort.SliceStable"),         -- results = make in this call
-  ("jlib/array.go", "", "rand.Intn"),
-  ("jlib/number.go", "", "local.SetString"),         -- a big.Rat allocated in this call
-  ("jlib/number.go", "", "local.SetInt"),
-  ("jlib/number.go", "", "rand.Float64"),
-  ("jlib/jlib.go", "", "rand.Seed")]
+  ("callable.go", "transformationCallable", "param:reflect.Value.SetMapIndex")]  -- the object belongs to the clone (ownership check)
 
 theorem fact_mutators_accounted :
-    Generated.mutatorCalls.all (fun w => allowedMutators.contains w) = true := by decide
+    Generated.mutatorCalls.all (fun w => localOnly w.2.2 || allowedMutators.contains w) = true := by decide
+
+/-- an in-place sort or a reflect write whose target is a parameter, a field or a global is not accepted by kind -/
+example : localOnly "sort.Slice(param:[]interface{})" = false ∧ localOnly "param:reflect.Value.Set" = false ∧
+    localOnly "sort.SliceStable(alias:param:reflect.Value)" = false := by decide
 
 /-- maps are written only by methods of the transform callable -/
 theorem fact_map_writes_only_in_transform :
